@@ -3,6 +3,7 @@ import Driver.Util
 /-
   Line protocol for C02:
     par <cancelOnFailure 0|1> <fails bits|-> <seesCancel bits|->   -> 1 (error) | 0 (nil)
+    perr <fails bits|-> <completed job indices csv|-> <stopAt|->   -> the combined error's items, e.g. j0,j2,ctx | -
 -/
 namespace Driver.C02
 open BufModel.Parallel Driver
@@ -16,6 +17,18 @@ def handle : List String → String
     if f.length != s.length then "bad-op" else
     let jobs := (f.zip s).map fun (a, b) => ({ fails := a, seesCancel := b } : JobSlot)
     if verdict (c = "1") jobs then "1" else "0"
+  | ["perr", fs, cs, st] =>
+    let f := bits fs
+    let comp := if cs = "-" then some [] else (cs.splitOn ",").mapM String.toNat?
+    match comp with
+    | none => "bad-op"
+    | some c =>
+      let stop := if st = "-" then none else st.toNat?
+      let items := joinedErrors f c stop
+      if items.isEmpty then "-" else
+      ",".intercalate (items.map fun
+        | .job i => "j" ++ toString i
+        | .ctx => "ctx")
   | _ => "bad-op"
 
 def run : IO Unit := runLines handle
